@@ -94,6 +94,21 @@ func runC15(o *Out, rng *Rng, tier string, replay string) {
 			before := hashAdmin(s.eng.Administrator)
 			code := s.setParams(p)
 			s.checkAdmin()
+			// the documented limits, stated independently of the code and of the model
+			pop := 0
+			for b := 0; b < 8; b++ {
+				if p.Threads&(1<<uint(b)) != 0 {
+					pop++
+				}
+			}
+			valid := p.FlightsInTrip <= 50 && p.FlightInterval*2 <= p.TripLength && !(p.Promises.Algo != 0 && p.Promises.MaxPoints < 2) && pop <= 1 && p.Threads <= 16
+			if valid != (code == 0) {
+				sig := "invalid-parameters-accepted"
+				if valid {
+					sig = "valid-parameters-rejected"
+				}
+				s.fail("C15", sig, fmt.Sprintf("SetParams(%+v) returned code %d; documented limits (flights per trip <= 50, 2*interval <= trip length, predictor window >= 2 with promises on, threads a power of two <= 16) say valid=%v", p, code, valid))
+			}
 			if code != 0 {
 				rejected++
 				if hashAdmin(s.eng.Administrator) != before {
